@@ -14,5 +14,6 @@ except Exception as e: print('ERR', e)")
   echo "$(basename $d) $(python3 -c "import json;m=json.load(open('$d/mutant.json'));print(m['file'],m['line'],'[%s]'%m['op'])") => $r"
 }
 export -f one
-ls -d mutants/survivors/M*/ | sed 's:/$::' | xargs -P 6 -L 1 bash -c 'one $0' | sort > mutants/eval.txt
-grep -c '=> NONE' mutants/eval.txt; wc -l < mutants/eval.txt
+DIR=${1:-mutants/survivors}; OUT=${2:-mutants/eval.txt}
+ls -d $DIR/[AM]*/ | sed 's:/$::' | xargs -P 6 -L 1 bash -c 'one $0' | sort > $OUT
+grep -c '=> NONE' $OUT; wc -l < $OUT
